@@ -489,6 +489,44 @@ async fn a_dry_run_computes_the_plan_and_commits_nothing() {
 }
 
 #[tokio::test]
+async fn a_transition_to_the_status_it_already_has_changes_nothing() {
+    // tx.rs: "A no-effect final state changes nothing." Every other clause
+    // skips an element it did not change; TRANSITION used to mark its target
+    // changed unconditionally, burning a version and emitting a change record
+    // for a transition that did not happen.
+    let nexus = nexus("transition_no_effect").await;
+    let created = ok(
+        &nexus,
+        r#"CREATE ACTIVITY ?x { SET FIELDS {activity_class: "reflection"} }"#,
+    )
+    .await;
+    let id = handle(&created, "x");
+    ok(&nexus, &format!(r#"TRANSITION ACTIVITY "{id}" TO "running""#)).await;
+    async fn version(nexus: &CognitiveNexus, id: &ElementId) -> u64 {
+        let found = ok(
+            nexus,
+            &format!(r#"FIND(?x._system.version) WHERE {{ ?x ACTIVITY {{id: "{id}"}} }}"#),
+        )
+        .await;
+        found[0].as_u64().unwrap()
+    }
+    let before = version(&nexus, &id).await;
+
+    let response = run(&nexus, &format!(r#"TRANSITION ACTIVITY "{id}" TO "running""#)).await;
+    assert_eq!(response.status, TopLevelStatus::Succeeded);
+    assert_eq!(
+        response.receipt.as_ref().unwrap().status,
+        ReceiptStatus::NoEffect,
+        "running -> running is not a transition"
+    );
+    assert_eq!(version(&nexus, &id).await, before, "no version was burned");
+
+    // A real transition still counts, once.
+    ok(&nexus, &format!(r#"TRANSITION ACTIVITY "{id}" TO "completed""#)).await;
+    assert_eq!(version(&nexus, &id).await, before + 1);
+}
+
+#[tokio::test]
 async fn retraction_withdraws_a_claim_without_deleting_it() {
     // Spec §41.1: retraction is not deletion. The record of what was believed
     // has to survive being disbelieved.
